@@ -85,6 +85,8 @@ func fanScenario(s *hx.Seq) {
 			for _, pc := range []float32{-5, 5, 40} {
 				mk(fmt.Sprintf("percentage+=%v", pc), &traits.FanSpeed{Percentage: pc}, true, "percentage")
 			}
+			// a relative request that moves the percentage and leaves the index where it is (a step of zero rows)
+			mk("percentage+=5,index+=0", &traits.FanSpeed{Percentage: 5, PresetIndex: 0}, true, "percentage", "preset_index")
 			if len(table) > 0 {
 				mk("preset+index", &traits.FanSpeed{Preset: table[0].Name, PresetIndex: int32(len(table)) - 1}, false, "preset", "preset_index")
 			}
@@ -177,6 +179,13 @@ func fanScenario(s *hx.Seq) {
 					}
 					if int64(cur.PresetIndex) != want {
 						s.Fail("fan-relative-index "+name, fmt.Sprintf("from row %d a relative step of %d rows ends on row %d, expected row %d of %d", before.PresetIndex, r.fs.PresetIndex, cur.PresetIndex, want, len(table)), nil)
+					}
+				}
+				// a relative step of the percentage with a zero step of the index: the percentage moves by the step
+				// (wherever the fan stood - on a row or between rows), nothing else decides
+				if r.relative && len(r.mask) == 2 && r.mask[0] == "percentage" && r.mask[1] == "preset_index" && r.fs.PresetIndex == 0 && step == len(path)-1 {
+					if want := before.Percentage + r.fs.Percentage; cur.Percentage != want {
+						s.Fail("fan-relative-percentage "+name, fmt.Sprintf("from %v a relative step of %v%% (index step 0) ends on %v, expected %v%%", before, r.fs.Percentage, cur, want), nil)
 					}
 				}
 				// precedence preset > index > percentage, for absolute masked updates
